@@ -335,6 +335,26 @@ def build_dsl(case, name="m"):
     return model, elems
 
 
+def model_scale(ref):
+    """largest magnitude anywhere in the reference trajectory (bounds cancellation noise)"""
+    m = 1.0
+    for vals in ref.values():
+        for v in vals:
+            if isinstance(v, (int, float)) and abs(v) > m:
+                m = abs(v)
+    return m
+
+
+def values_agree(got, want, scale, n):
+    """relative 1e-9, or absolute noise bound 1e-13 * scale * (n+1) for sums that cancel"""
+    if E.close(got, want, 1e-9):
+        return True
+    try:
+        return abs(float(got) - float(want)) <= 1e-13 * scale * (n + 1)
+    except (TypeError, ValueError):
+        return False
+
+
 def element_names(case):
     return [c["name"] for c in case["constants"]] + [s["name"] for s in case["stocks"]] + [a["name"] for a in case["aux"]]
 
